@@ -32,6 +32,15 @@ def bad_dim_cases(g, per):
         cases.append(g.case("bad-stack", lines, op="stack", bad="cols"))
         lines = mats([("A", m + 1, l), ("D", m, l)]) + ["call copy - D A", "dump D"]
         cases.append(g.case("bad-copy", lines, op="copy", bad="target too small"))
+        # mzd_submatrix: a supplied destination that is too small in exactly ONE dimension (and in both)
+        for dr, dc, why in ((1, 0, "S too few rows"), (0, 1, "S too few columns"), (1, 1, "S too small")):
+            for c0 in (0, 3):
+                if m + 2 <= 1 or l + 4 <= c0 + 1:
+                    continue
+                mm, ll = m + 2, l + 4 + c0
+                br, bc = m + 1, l + 1
+                lines = mats([("A", mm, ll), ("S", br - dr, bc - dc)]) + ["call submatrix - S A 0 %d %d %d" % (c0, br, c0 + bc), "dump S"]
+                cases.append(g.case("bad-submatrix", lines, op="submatrix", bad=why + (" (aligned)" if c0 == 0 else " (unaligned)")))
     return cases
 
 
@@ -116,6 +125,10 @@ def run(res, tier, seed):
     runner = corr.Runner(vt, wrap=True)
     g = gen.G(seed + 11)
     cases = [ops.build(name, g, None, 140) for name in OPS for _ in range(n)]
+    # wide factorisations (more than 8 words: the Four-Russians base case works on a column window it must release on every
+    # path, also when a block has no pivot): rank-deficient inputs with zero column blocks
+    wide_ops = [nm for nm in ("ple", "pluq", "_ple_russian", "_pluq_russian", "kernel_left_pluq", "solve_left", "echelonize_pluq") if nm in ops.CATALOG]
+    cases += [ops.build(name, g, None, 720) for name in wide_ops for _ in range(max(4, n // 2))]
     cout = runner.run_c(cases, env={"VERIF_BALANCE": "1"})
     seen = set()
     for c in cases:
